@@ -39,15 +39,21 @@ func H_C10_resend() {
 	var w [][]byte // w[i-1] = first transmission of message number i
 	var f *fx
 	peer, me := "CLI", "SRV"
+	// param 5 = 1: the peer logs on ahead of sequence, so the session's own gap ResendRequest is
+	// one of the stored messages
+	logonSeq := 1
+	if zz.Param(5) == 1 {
+		logonSeq = 4
+	}
 	if role == 0 {
 		f = newAcceptor(st, 1, 60, 0, "0")
-		w = append(w, f.logon("CLI", "SRV", 1, 30)...)
+		w = append(w, f.logon("CLI", "SRV", logonSeq, 30)...)
 	} else {
 		f = newInitiator(st, 30, "0", "user", "pw", 0)
 		peer, me = "SRV", "CLI"
 		w = append(w, f.h.VerifOut()...)
 		lg := fixgen.CreateLogon("0", 30)
-		setHdr(lg.Header(), "SRV", "CLI", 1)
+		setHdr(lg.Header(), "SRV", "CLI", logonSeq)
 		w = append(w, f.serve(wire(lg))...)
 	}
 	zz.Assume(f.s.IsLogged())
@@ -160,7 +166,7 @@ func H_C10_gap() {
 	}
 }
 
-// H_C15_logout: Logout handling. params: [role, scenario]
+// H_C15_logout: Logout handling. params: [role, scenario, pre (1: waiting for a TestRequest answer)]
 // 0: logged on, inbound Logout -> exactly one Logout, not logged on
 // 1: local Logout(), then inbound Logout -> nothing transmitted by the second step, logout event once
 // 2: Stop(), then inbound Logout -> context cancelled by the answer (deadline timer not fired)
@@ -187,9 +193,15 @@ func H_C15_logout() {
 	for k := range f.events {
 		delete(f.events, k)
 	}
+	if zz.Param(2) == 1 {
+		// the session has probed a silent peer and waits for the answer (still a logged-on session)
+		f.s.changeState(WaitingTestReqAnswer, true)
+		_ = f.h.VerifOut()
+	}
+	ctx0 := f.s.Context() // what the application holds since before the end of the session
 	cancelled := func() bool {
 		select {
-		case <-f.s.Context().Done():
+		case <-ctx0.Done():
 			return true
 		default:
 			return false
@@ -237,10 +249,12 @@ func H_C15_logout() {
 			zz.Reach("served")
 			zz.Assert(len(out) == 0, "C15: a second Logout is sent when the peer's answer arrives")
 			zz.Assert(cancelled(), "C15: the session context is not cancelled when the peer's Logout answer arrives")
+
 		} else {
 			zz.AfterFuncFire(n0)
 			zz.Reach("fired")
 			zz.Assert(cancelled(), "C15: the session context is not cancelled when the close timeout elapses")
+
 		}
 	}
 }
